@@ -35,7 +35,12 @@ RULE = ('failure sets enumerated: every subset of failing positions for streams 
         '(num_threads=1: compared in order), first operator of every kind (assign / filter / sink first: the class of the '
         'repaired F-C12-passed-on); skippable routing errors passed on between operators (every subset of records whose '
         'output routing fails x the kind of the next operator); assign(batch_size=1..3) on aligned streams (last batch 1..b rows) x '
-        'failing reads x skipping on/off x a failing call with skipping off, and the same with one row too many (misaligned).  non-trivial = at least one element fails and at least one survives')
+        'failing reads x skipping on/off x a failing call with skipping off, and the same with one row too many (misaligned); '
+        'arm after-error (SC12c): on EVERY case in which an error reaches the caller the exception is released, every sink\'s closed is read with '
+        'the iterator alive and next() is called 1..3 more times on the same iterator (delivered / written / closed recorded); failing '
+        'apply|assign|filter|sink x 6 operators-in-front x 6 operators-behind (sinks, filters, plain; all 144 enforced) x every failing position x num_threads 0/1/2; '
+        'arm skip-config (SC12c): skipping on the data source | on the pipeline | both | neither x route direct | .shard(k,n) | make(shard=ShardConfig(k,n)) | '
+        'source iterator from_state | restored pipeline iterator (20 classes enforced) x every failing-read set in the part read afterwards.  non-trivial = at least one element fails and at least one survives')
 
 N, P = G.N, G.P
 
